@@ -142,3 +142,198 @@ Proof.
       repeat split; auto. rewrite I1. reflexivity.
 Qed.
 End Dist.
+
+(* ------------------------------------------------------------------ andLineMatchTree.matches: the loop finds a common line *)
+Definition asc (l : list nat) : Prop := StronglySorted le l.
+Definition al_spec (lines : list nat) (cs : list (list nat)) : bool :=
+  existsb (fun L => forallb (fun c => mem_nat L c) cs) lines.
+
+Lemma asc_tail : forall x l, asc (x :: l) -> asc l.
+Proof. intros x l H. inversion H; auto. Qed.
+Lemma asc_le : forall x l y, asc (x :: l) -> In y l -> x <= y.
+Proof. intros x l y H Hy. inversion H as [|? ? _ Hf]; subst. rewrite Forall_forall in Hf. auto. Qed.
+
+Lemma al_child_spec : forall L c, asc c ->
+  let '(c', o) := al_child L c in
+  asc c' /\ (forall y, L <= y -> (In y c' <-> In y c)) /\
+  match o with
+  | AlHit => In L c
+  | AlMiss => forall y, L <= y -> ~ In y c
+  | AlBeyond x => L < x /\ forall y, L <= y -> y < x -> ~ In y c
+  end.
+Proof.
+  induction c as [|x r IH]; intro Ha; simpl.
+  - split; [constructor|]. split; [intros y _; reflexivity|]. intros y _ [].
+  - destruct (x <? L) eqn:E1.
+    + specialize (IH (asc_tail _ _ Ha)). destruct (al_child L r) as [c' o]. destruct IH as [A [B C]].
+      split; [exact A|]. split.
+      * intros y Hy. rewrite (B y Hy). simpl. split; [tauto|]. intros [->|H]; [lia|exact H].
+      * destruct o.
+        -- right. exact C.
+        -- intros y Hy [->|H]; [lia | apply (C y Hy H)].
+        -- destruct C as [C1 C2]. split; [exact C1|]. intros y Hy1 Hy2 [->|H]; [lia | apply (C2 y Hy1 Hy2 H)].
+    + destruct (x =? L) eqn:E2.
+      * split; [exact Ha|]. split; [intros y _; reflexivity|]. left. lia.
+      * split; [exact Ha|]. split; [intros y _; reflexivity|]. split; [lia|].
+        intros y Hy1 Hy2 [->|H]; [lia|]. pose proof (asc_le x r y Ha H). lia.
+Qed.
+
+Definition same_from (L : nat) (c c' : list nat) : Prop := asc c' /\ forall y, L <= y -> (In y c' <-> In y c).
+
+Lemma al_children_spec : forall L cs, Forall asc cs ->
+  let '(cs', h, j) := al_children L cs in
+  Forall2 (same_from L) cs cs' /\ h <= length cs /\
+  match j with
+  | None => (h = length cs <-> forall c, In c cs -> In L c)
+  | Some x => L < x /\ exists c, In c cs /\ forall y, L <= y -> y < x -> ~ In y c
+  end.
+Proof.
+  induction cs as [|c r IH]; intro Ha; simpl.
+  - split; [constructor|]. split; [lia|]. split; [intros _ c []|reflexivity].
+  - inversion Ha as [|? ? Hc Hr]; subst. pose proof (al_child_spec L c Hc) as Hs.
+    destruct (al_child L c) as [c' o]. destruct Hs as [A [B C]].
+    assert (Hrefl : Forall2 (same_from L) r r).
+    { clear -Hr. induction r; constructor; [split; [inversion Hr; auto | tauto] | apply IHr; inversion Hr; auto]. }
+    destruct o.
+    + specialize (IH Hr). destruct (al_children L r) as [[r' h] j]. destruct IH as [I1 [I2 I3]].
+      split; [constructor; [split; auto | exact I1]|]. split; [simpl; lia|].
+      destruct j.
+      * destruct I3 as [J1 [c0 [J2 J3]]]. split; [exact J1|]. exists c0. split; [right; exact J2 | exact J3].
+      * simpl. split.
+        -- intros Hh c0 [<-|Hin]; [exact C | apply I3; [lia | exact Hin]].
+        -- intro Hall. f_equal. apply I3. intros c0 Hin. apply Hall. right. exact Hin.
+    + specialize (IH Hr). destruct (al_children L r) as [[r' h] j]. destruct IH as [I1 [I2 I3]].
+      split; [constructor; [split; auto | exact I1]|]. split; [simpl; lia|].
+      destruct j.
+      * destruct I3 as [J1 [c0 [J2 J3]]]. split; [exact J1|]. exists c0. split; [right; exact J2 | exact J3].
+      * simpl. split; [lia|]. intro Hall. exfalso. apply (C L (le_n _)). apply Hall. left. reflexivity.
+    + destruct C as [C1 C2]. split; [constructor; [split; auto | exact Hrefl]|]. split; [simpl; lia|].
+      split; [exact C1|]. exists c. split; [left; reflexivity | exact C2].
+Qed.
+
+Lemma al_spec_same : forall L lines cs cs', Forall2 (same_from L) cs cs' -> (forall y, In y lines -> L <= y) ->
+  al_spec lines cs' = al_spec lines cs.
+Proof.
+  intros L lines cs cs' H2 Hl. unfold al_spec. apply existsb_ext_in. intros y Hy. specialize (Hl y Hy).
+  induction H2 as [|c c' r r' [_ Hc] _ IH]; [reflexivity|]. simpl. rewrite IH. f_equal.
+  destruct (mem_nat y c') eqn:E1; destruct (mem_nat y c) eqn:E2; try reflexivity.
+  - apply mem_nat_In in E1. apply (Hc y Hl) in E1. apply mem_nat_In in E1. congruence.
+  - apply mem_nat_In in E2. apply (Hc y Hl) in E2. apply mem_nat_In in E2. congruence.
+Qed.
+Lemma forall2_asc : forall L cs cs', Forall2 (same_from L) cs cs' -> Forall asc cs'.
+Proof. intros L cs cs' H. induction H as [|c c' r r' [Ha _] _ IH]; constructor; auto. Qed.
+Lemma drop_while_length : forall f l, length (drop_while f l) <= length l.
+Proof. induction l as [|x l IH]; simpl; [lia|]. destruct (f x); simpl; lia. Qed.
+Lemma drop_while_In : forall f l y, In y (drop_while f l) -> In y l.
+Proof. induction l as [|x l IH]; simpl; intros y H; [auto|]. destruct (f x); [right; auto | exact H]. Qed.
+
+(** THE LOOP IS CORRECT: for ascending distinct lines and ascending candidate lists, the loop answers "found" exactly
+    when some line of the base child carries a candidate of every other child. *)
+Theorem al_lines_spec : forall fuel lines cs, inc lines -> Forall asc cs -> length lines < fuel ->
+  al_lines fuel lines cs = al_spec lines cs.
+Proof.
+  induction fuel as [|f IH]; intros lines cs Hl Hc Hf; [lia|].
+  destruct lines as [|L rest]; [reflexivity|]. simpl al_lines.
+  pose proof (al_children_spec L cs Hc) as Hs. destruct (al_children L cs) as [[cs' h] j]. destruct Hs as [S1 [S2 S3]].
+  assert (Hrest : forall y, In y rest -> L <= y) by (intros y Hy; pose proof (inc_lt L rest y Hl Hy); lia).
+  assert (HL : forallb (fun c => mem_nat L c) cs = true <-> forall c, In c cs -> In L c).
+  { rewrite forallb_forall. split; intros H c Hin; [apply mem_nat_In; auto | apply mem_nat_In; auto]. }
+  destruct j as [x|].
+  - destruct S3 as [J1 [c0 [J2 J3]]].
+    rewrite (IH (drop_while (fun l => l <? x) rest) cs'); [| | apply (forall2_asc L cs cs' S1) | pose proof (drop_while_length (fun l => l <? x) rest); simpl in Hf; lia].
+    2:{ rewrite drop_while_lt_filter by (apply (inc_tail L); auto). apply inc_filter. apply (inc_tail L); auto. }
+    rewrite (al_spec_same L _ cs cs' S1) by (intros y Hy; apply Hrest; eapply drop_while_In; eauto).
+    unfold al_spec. simpl existsb.
+    assert (E0 : forallb (fun c => mem_nat L c) cs = false).
+    { apply not_true_is_false. intro H. pose proof (proj1 HL H c0 J2) as Hin. apply (J3 L (le_n _) J1 Hin). }
+    rewrite E0. simpl.
+    rewrite (drop_while_lt_filter x rest) by (apply (inc_tail L); auto).
+    (* lines of rest below x cannot carry c0 *)
+    clear -J2 J3 Hrest. induction rest as [|y r IHr]; [reflexivity|]. simpl.
+    assert (Hy : L <= y) by (apply Hrest; left; reflexivity).
+    destruct (x <=? y) eqn:E; simpl.
+    + rewrite IHr by (intros z Hz; apply Hrest; right; auto). reflexivity.
+    + assert (E1 : forallb (fun c => mem_nat y c) cs = false).
+      { apply not_true_is_false. intro H. rewrite forallb_forall in H. specialize (H c0 J2). apply mem_nat_In in H. apply (J3 y Hy ltac:(lia) H). }
+      rewrite E1. simpl. apply IHr. intros z Hz; apply Hrest; right; auto.
+  - destruct (h =? length cs) eqn:Eh.
+    + apply Nat.eqb_eq in Eh. unfold al_spec. simpl. rewrite (proj2 HL (proj1 S3 Eh)). reflexivity.
+    + rewrite (IH rest cs' (inc_tail L rest Hl) (forall2_asc L cs cs' S1) ltac:(simpl in Hf; lia)).
+      rewrite (al_spec_same L rest cs cs' S1 Hrest). unfold al_spec. simpl.
+      assert (E0 : forallb (fun c => mem_nat L c) cs = false).
+      { apply not_true_is_false. intro H. pose proof (proj2 S3 (proj1 HL H)) as Hh. apply Nat.eqb_neq in Eh. congruence. }
+      rewrite E0. reflexivity.
+Qed.
+
+(* ------------------------------------------------------------------ the whole same-line test *)
+Lemma dedup_adj_In : forall l y, In y (dedup_adj l) <-> In y l.
+Proof.
+  induction l as [|x [|z r] IH]; intro y; try reflexivity.
+  change (dedup_adj (x :: z :: r)) with (if x =? z then dedup_adj (z :: r) else x :: dedup_adj (z :: r)).
+  destruct (x =? z) eqn:E.
+  - apply Nat.eqb_eq in E. subst. rewrite IH. simpl. tauto.
+  - simpl In at 1. rewrite IH. simpl. tauto.
+Qed.
+Lemma dedup_adj_inc : forall l, asc l -> inc (dedup_adj l).
+Proof.
+  induction l as [|x [|z r] IH]; intro Ha; try (repeat constructor).
+  change (dedup_adj (x :: z :: r)) with (if x =? z then dedup_adj (z :: r) else x :: dedup_adj (z :: r)).
+  pose proof (asc_tail _ _ Ha) as Ha'. destruct (x =? z) eqn:E; [apply IH; auto|].
+  constructor; [apply IH; auto|]. apply Forall_forall. intros y Hy. apply (proj1 (dedup_adj_In _ _)) in Hy.
+  pose proof (asc_le x (z :: r) z Ha (or_introl eq_refl)). pose proof (asc_le x (z :: r) y Ha Hy).
+  destruct Hy as [<-|Hy]; [lia|]. pose proof (asc_le z r y Ha' Hy). lia.
+Qed.
+Lemma asc_map : forall (line : nat -> nat) l, (forall a b, a <= b -> line a <= line b) -> inc l -> asc (map line l).
+Proof.
+  intros line l Hm. induction l as [|x l IH]; intro H; simpl; constructor.
+  - apply IH. apply (inc_tail x); auto.
+  - apply Forall_forall. intros y Hy. apply in_map_iff in Hy. destruct Hy as [z [<- Hz]]. apply Hm. pose proof (inc_lt x l z H Hz). lia.
+Qed.
+
+Definition common_line (line : nat -> nat) (vs : list (list nat)) : Prop :=
+  exists L, forall v, In v vs -> exists o, In o v /\ line o = L.
+
+Lemma remove_nth_In : forall (A : Type) (f : nat) (l : list A) (d x : A), f < length l ->
+  (In x l <-> x = nth f l d \/ In x (remove_nth f l)).
+Proof.
+  intros A f l d x Hf. unfold remove_nth. rewrite <- (firstn_skipn f l) at 1.
+  assert (Hs : skipn f l = nth f l d :: skipn (S f) l).
+  { revert l Hf. induction f as [|f IH]; intros [|y l] Hf; simpl in *; try lia; [reflexivity | apply IH; lia]. }
+  rewrite Hs. rewrite !in_app_iff. simpl. split; [intros [H|[H|H]]; auto | intros [H|[H|H]]; auto].
+Qed.
+
+(** The Go loop (base = any child, in particular the one with the fewest candidates) answers "found" iff the children
+    have candidates on a common line -- which is what the model's [same_line] computes with the first child as base. *)
+Theorem andline_alg_spec : forall (line : nat -> nat) (vs : list (list nat)) (f : nat),
+  (forall a b, a <= b -> line a <= line b) -> Forall inc vs -> f < length vs ->
+  (andline_alg line vs f = true <-> common_line line vs).
+Proof.
+  intros line vs f Hm Hvs Hf. unfold andline_alg.
+  set (base := dedup_adj (map line (nth f vs []))).
+  rewrite Forall_forall in Hvs.
+  assert (Hbase : inc base) by (apply dedup_adj_inc; apply asc_map; [auto | apply Hvs; apply nth_In; auto]).
+  assert (Hcs : Forall asc (map (map line) (remove_nth f vs))).
+  { apply Forall_forall. intros c Hc. apply in_map_iff in Hc. destruct Hc as [v [<- Hv]]. apply asc_map; [auto|]. apply Hvs.
+    apply (proj2 (remove_nth_In _ f vs [] v Hf)). right. exact Hv. }
+  rewrite (al_lines_spec (S (length base)) base _ Hbase Hcs ltac:(lia)).
+  unfold al_spec. rewrite existsb_exists. split.
+  - intros [L [HL Hall]]. rewrite forallb_forall in Hall. exists L. intros v Hv.
+    apply (proj1 (remove_nth_In _ f vs [] v Hf)) in Hv. destruct Hv as [->|Hv].
+    + unfold base in HL. apply (proj1 (dedup_adj_In _ _)) in HL. apply in_map_iff in HL. destruct HL as [o [Ho1 Ho2]]. exists o. auto.
+    + specialize (Hall (map line v) ltac:(apply in_map; exact Hv)). apply mem_nat_In in Hall. apply in_map_iff in Hall.
+      destruct Hall as [o [Ho1 Ho2]]. exists o. auto.
+  - intros [L HL]. exists L. split.
+    + unfold base. apply dedup_adj_In. destruct (HL (nth f vs []) ltac:(apply nth_In; auto)) as [o [Ho1 Ho2]]. rewrite <- Ho2. apply in_map. exact Ho1.
+    + apply forallb_forall. intros c Hc. apply in_map_iff in Hc. destruct Hc as [v [<- Hv]]. apply mem_nat_In.
+      destruct (HL v ltac:(apply (proj2 (remove_nth_In _ f vs [] v Hf)); right; exact Hv)) as [o [Ho1 Ho2]]. rewrite <- Ho2. apply in_map. exact Ho1.
+Qed.
+
+Theorem same_line_expr_spec : forall (line : nat -> nat) (v0 : list nat) (vs : list (list nat)),
+  existsb (fun o0 => forallb (fun v => existsb (fun o => line o =? line o0) v) (v0 :: vs)) v0 = true <-> common_line line (v0 :: vs).
+Proof.
+  intros line v0 vs. rewrite existsb_exists. split.
+  - intros [o0 [Ho0 Hall]]. rewrite forallb_forall in Hall. exists (line o0). intros v Hv. specialize (Hall v Hv).
+    apply existsb_exists in Hall. destruct Hall as [o [Ho He]]. apply Nat.eqb_eq in He. exists o. auto.
+  - intros [L HL]. destruct (HL v0 (or_introl eq_refl)) as [o0 [Ho0 He0]]. exists o0. split; [exact Ho0|].
+    apply forallb_forall. intros v Hv. destruct (HL v Hv) as [o [Ho He]]. apply existsb_exists. exists o. split; [exact Ho|]. apply Nat.eqb_eq. lia.
+Qed.
